@@ -207,7 +207,7 @@ func evalC10(r *runner, u *c10Unit, c C10Case) string {
 			return hd + fmt.Sprintf("Type(%q) = %d for a name that is no terminal (expected INVALID = 0)", p, got)
 		}
 	}
-	if u.tm.Id(len(names)) != "unknown" {
+	if u.tm.Id(len(names)) != "unknown" || u.tm.Id(len(names)+7) != "unknown" {
 		return hd + fmt.Sprintf("Id(%d) = %q beyond the last terminal", len(names), u.tm.Id(len(names)))
 	}
 	// the lexer emits these numbers
